@@ -11,11 +11,15 @@ CONSTANTS
   WinClamp = TRUE
   SeekClamp = TRUE
   EmptyGuard = TRUE
+  Pres <- T_Pres
+  PreSpecSrcs <- T_PreSpecSrcs
+  AliasAttrs = FALSE
 CONSTRAINT Export
 INVARIANT ImplClipRefinesReq
 INVARIANT ImplProduces
 INVARIANT ImplTimeAxis
 INVARIANT ImplFreqAxis
+INVARIANT ImplSourceTruthful
 INVARIANT ImplStartsAtSource
 INVARIANT ResampleDriftBounded
 INVARIANT LawFloor
